@@ -9,8 +9,8 @@ _T = ['convDt_formula', 'convDt_pos', 'convDt_linear', 'burgersDt_formula', 'bur
       'cellsize2d', 'swDt_formula', 'swDt_pos', 'swDt_linear', 'eDt_formula', 'eDt_pos', 'eDt_linear',
       'e2Dt_formula', 'e2Dt_pos', 'e2Dt_linear', 'sw_eigen_partial', 'e_eigen_partial']
 THEOREMS = ['Flowdyn.C18.' + t for t in _T]
-AUDIT_IMPORTS = ['Flowdyn.Props.KernelsBridge']
-THEOREMS = THEOREMS + ['Flowdyn.GenK.%s_eq' % k for k in ['swDt', 'eDt', 'convDt', 'eVelocityMag']]
+AUDIT_IMPORTS = ['Flowdyn.Props.KernelsBridge', 'Flowdyn.Props.Kernels2DBridge']
+THEOREMS = THEOREMS + ['Flowdyn.GenK.%s_eq' % k for k in ['swDt', 'eDt', 'convDt', 'eVelocityMag']] + ['Flowdyn.GenK2.e2Dt_eq']
 PARTIAL = {'Flowdyn.C18.sw_eigen_partial': "eigenpairs of the closed-form Jacobian; that the matrix is the derivative of the physical flux is not proved (validated numerically by the oracle)",
            'Flowdyn.C18.e_eigen_partial': "same for the Euler flux Jacobian"}
 LEVEL_NOTE = "formula, positivity, bilinearity proved; spectral-radius link through explicit eigenpairs (partial); global-min / local-array use by the driver is covered by C07's driver model and checked here on the implementation"
